@@ -26,12 +26,13 @@ _FACETS = ["C10/" + t[0] for t in _TARGETS]
 _ENV = {"VERIF_KNOWN": os.environ["VERIF_KNOWN"]} if os.environ.get("VERIF_KNOWN") else {}
 
 # rapid mutation units: one process group per cost class so that the quick tier is bounded by the slowest target
+# (unit, tests, facets, checks per shard (quick, thorough), shards (quick, thorough))
 _GROUPS = [
-    ("c10-mut-chain", ["Chain"], ["C10/chain"]),
-    ("c10-mut-html", ["HTML", "Script"], ["C10/html", "C10/script"]),
-    ("c10-mut-pdf", ["PDF"], ["C10/pdf"]),
-    ("c10-mut-doc", ["JSON", "XML", "S3", "M3U8"], ["C10/json", "C10/xml", "C10/s3", "C10/m3u8"]),
-    ("c10-mut-site", ["LinkHeader", "Reddit", "Truthsocial", "INA"], ["C10/linkheader", "C10/reddit", "C10/truthsocial", "C10/ina"]),
+    ("c10-mut-chain", ["Chain"], ["C10/chain"], (10000, 40000), (2, 16)),
+    ("c10-mut-html", ["HTML", "Script"], ["C10/html", "C10/script"], (10000, 40000), (2, 16)),
+    ("c10-mut-pdf", ["PDF"], ["C10/pdf"], (5000, 15000), (4, 16)),
+    ("c10-mut-doc", ["JSON", "XML", "S3", "M3U8"], ["C10/json", "C10/xml", "C10/s3", "C10/m3u8"], (10000, 40000), (2, 16)),
+    ("c10-mut-site", ["LinkHeader", "Reddit", "Truthsocial", "INA"], ["C10/linkheader", "C10/reddit", "C10/truthsocial", "C10/ina"], (10000, 40000), (2, 16)),
 ]
 
 _units = [
@@ -39,9 +40,9 @@ _units = [
     {"name": "c10-corpus", "pkg": _PKG, "run": "^TestVerif_C10_(Corpus|CodecSelfTest)$" + _VERDICT, "kind": "plain",
      "facets": [], "shards": (1, 1), "timeout": (900, 1800), "env": dict(_ENV)},
 ]
-for _name, _tests, _facets in _GROUPS:
+for _name, _tests, _facets, _checks, _shards in _GROUPS:
     _units.append({"name": _name, "pkg": _PKG, "run": "^TestVerif_C10_Mut_(%s)$" % "|".join(_tests) + _VERDICT, "kind": "rapid",
-                   "facets": _facets, "checks": (20000, 60000), "shards": (1, 16), "shrinktime": (30, 60),
+                   "facets": _facets, "checks": _checks, "shards": _shards, "shrinktime": (30, 60),
                    "timeout": (1500, 3000), "env": dict(_ENV)})
 # (c) native coverage-guided fuzzing, thorough tier only (fuzztime quick = 0: the unit is then a plain run of the seeds)
 for _t, _n, _f in _TARGETS:
